@@ -376,8 +376,11 @@ func (u *skUT) checkExactStats() string {
 		u.cl.label("sum-overflow-skipped")
 		return ""
 	}
-	// relative part plus an absolute floor of as many subnormal ulps (products v*w that underflow are rounded to a multiple of 2^-1074)
-	tol := float64(8+2*u.inex)*0x1p-52*sumAbs + float64(8+2*u.inex+len(u.k.vals))*math.SmallestNonzeroFloat64
+	// relative part plus an absolute floor of as many subnormal ulps (products v*w that underflow are rounded to a
+	// multiple of 2^-1074), amplified by every later scale-up of a unit change (a running sum in the subnormal
+	// range has lost relative precision before it is multiplied)
+	amp := math.Max(u.k.amp, 1)
+	tol := float64(8+2*u.inex)*0x1p-52*sumAbs + float64(8+2*u.inex+len(u.k.vals))*math.SmallestNonzeroFloat64*amp
 	if got := u.s.GetSum(); !(math.Abs(got-sum) <= tol) {
 		return fmt.Sprintf("exact sum: got %v want %v (error %v, allowed %v = (8+2*%d) ulps of sum|v*w|=%v)", got, sum, got-sum, tol, u.inex, sumAbs)
 	}
